@@ -3,7 +3,7 @@
 # runs the mapped check(s) with VERIF_REPO and expects a VIOLATION (fail-before); the unchanged tree passing is the pass-after.
 # Output: one line per (commit, property).
 cd "$(dirname "$0")/.."
-MAP="${FIXMAP:-d5d5e0e:C01 e169fef:C07 7438a1d:C09 bf02b9c:C13,C14 7e0ca68:C12 1a14709:C04 c742deb:C12 d81f8ba:C08 b491e21:C12 0118805:C11 f456550:C01,C20 3d05b64:C01,C02 b6d825e:C07 f44dc14:C09,C20 f886f9e:C09 20ecb3c:C03 408c65c:C12 ee50250:C03 f42229c:C19,C04 7fd051b:C14,C04 c673c8a:C14 b8dc803:C14 aaf7bc6:C14 da28530:C06,C17 f1a0827:C05 89152ca:C19 3726581:C19 223ff8a:C16 f45da98:C14 ae47d5f:C11 ae3858d:C08 6d3d359:C08 c9171ed:C08 f2f01bc:C11 e95ea25:C06,C13 251523b:C16 a68bb03:C12 88e2f18:C07}"
+MAP="${FIXMAP:-2b88969:C12 d5d5e0e:C01 e169fef:C07 7438a1d:C09 bf02b9c:C13,C14 7e0ca68:C12 1a14709:C04 c742deb:C12 d81f8ba:C08 b491e21:C12 0118805:C11 f456550:C01,C20 3d05b64:C01,C02 b6d825e:C07 f44dc14:C09,C20 f886f9e:C09 20ecb3c:C03 408c65c:C12 ee50250:C03 f42229c:C19,C04 7fd051b:C14,C04 c673c8a:C14 b8dc803:C14 aaf7bc6:C14 da28530:C06,C17 f1a0827:C05 89152ca:C19 3726581:C19 223ff8a:C16 f45da98:C14 ae47d5f:C11 ae3858d:C08 6d3d359:C08 c9171ed:C08 f2f01bc:C11 e95ea25:C06,C13 251523b:C16 a68bb03:C12 88e2f18:C07}"
 for m in $MAP; do
   c=${m%%:*}; props=${m##*:}
   WT=/tmp/fixval-$c
